@@ -24,6 +24,7 @@ type refInfo struct {
 	idx  int64
 	opt  bool // declared optional reference
 	conc bool // static type &C.R / &C.R? (otherwise &{C.I} / &{C.I}?, or a borrow's type)
+	att  bool // static type &C.A: reference to the attachment of the target (only the att* statements use it)
 }
 
 // a non-resource value holding a copy of a reference: struct field, optional struct, array
@@ -135,10 +136,27 @@ func (g *Gen) pickVar(pred func(*varInfo) bool) *varInfo {
 	return c[g.rng.Intn(len(c))]
 }
 
+func (g *Gen) pickAttRef() *refInfo {
+	var c []*refInfo
+	for _, r := range g.refs {
+		if !r.att {
+			continue
+		}
+		v, _ := g.st.Ref(r.idx)
+		if _, e := g.st.resolveRv(v); e == g.want {
+			c = append(c, r)
+		}
+	}
+	if len(c) == 0 {
+		return nil
+	}
+	return c[g.rng.Intn(len(c))]
+}
+
 func (g *Gen) pickRef(pred func(*refInfo) bool) *refInfo {
 	var c []*refInfo
 	for _, v := range g.refs {
-		if pred(v) {
+		if !v.att && pred(v) {
 			c = append(c, v)
 		}
 	}
@@ -211,7 +229,7 @@ func (g *Gen) pickBase() *baseSel {
 		c = append(c, con, con)
 	}
 	for _, r := range g.refs {
-		if r.opt {
+		if r.opt || r.att {
 			continue
 		}
 		rv, _ := g.st.Ref(r.idx)
@@ -826,6 +844,73 @@ func (g *Gen) build(kind string) *Stmt {
 			UDLen: "%s.dict.length", UShow: "C.show(%s)"}[k]
 		return &Stmt{Kind: "use:" + useNames[k], Src: "log(" + fmt.Sprintf(e, rname(s.idx)) + ")",
 			Cmds: []Cmd{{Op: CUse, R: s.idx, K: k}}}
+	// ---- attachments: every resource carries attachment C.A; a reference to it is a reference
+	// into the resource (model: a reference to the base) and must die with it
+	case "refAtt":
+		b := g.pickBase()
+		if b == nil || b.con {
+			return nil
+		}
+		var cmd Cmd
+		r := &refInfo{idx: g.fresh(), att: true}
+		if b.ref {
+			if v, _ := g.st.Ref(b.b.X); v.Kind == RSto {
+				return nil
+			}
+			cmd = Cmd{Op: CRefCopy, R: r.idx, R0: b.b.X}
+		} else {
+			cmd = Cmd{Op: CRefVar, R: r.idx, X: b.b.X}
+		}
+		g.refs = append(g.refs, r)
+		e := b.expr + "[C.A]"
+		var src string
+		// the reference is hidden from the checker's static invalidation analysis in several ways
+		switch rng.Intn(5) {
+		case 0:
+			src = fmt.Sprintf("let %s = C.ida(%s)!", rname(r.idx), e)
+		case 1:
+			src = fmt.Sprintf("let %s = (C.anyId(%s) as! &C.A?)!", rname(r.idx), e)
+		case 2:
+			src = fmt.Sprintf("let %s = [%s!][0]", rname(r.idx), e)
+		case 3:
+			src = fmt.Sprintf("let %s = (fun (_ a: &C.A): &C.A { return a })(%s!)", rname(r.idx), e)
+		default:
+			src = fmt.Sprintf("let %s = C.AHolder(%s!).ref", rname(r.idx), e)
+		}
+		return &Stmt{Kind: kind, Src: src, Cmds: []Cmd{cmd}}
+	case "useAtt":
+		s := g.pickAttRef()
+		if s == nil {
+			return nil
+		}
+		switch rng.Intn(5) {
+		case 0:
+			return &Stmt{Kind: kind, Src: fmt.Sprintf("log(%s.baseTag())", rname(s.idx)), Cmds: []Cmd{{Op: CUse, R: s.idx, K: UTag}}}
+		case 1:
+			return &Stmt{Kind: kind, Src: fmt.Sprintf("log(%s.baseUuid())", rname(s.idx)), Cmds: []Cmd{{Op: CUse, R: s.idx, K: UUuid}}}
+		case 2:
+			return &Stmt{Kind: kind, Src: fmt.Sprintf("log(%s.getK())", rname(s.idx)), Cmds: []Cmd{{Op: CUse, R: s.idx, K: UAtt}}}
+		}
+		// the attachment's own field: nothing but the invalidation of this very reference stops it
+		return &Stmt{Kind: kind, Src: fmt.Sprintf("log(%s.k)", rname(s.idx)), Cmds: []Cmd{{Op: CUse, R: s.idx, K: UAtt}}}
+	case "attSetTag":
+		s := g.pickAttRef()
+		if s == nil {
+			return nil
+		}
+		t := g.newTag()
+		return &Stmt{Kind: kind, Src: fmt.Sprintf("%s.setBaseTag(%d)", rname(s.idx), t),
+			Cmds: []Cmd{{Op: CSetTag, B: Base{Ref: true, X: s.idx}, T: t}}}
+	case "attBaseRef":
+		s := g.pickAttRef()
+		if s == nil {
+			return nil
+		}
+		r := &refInfo{idx: g.fresh()}
+		g.refs = append(g.refs, r)
+		return &Stmt{Kind: kind, Src: fmt.Sprintf("let %s = %s.baseRef()", rname(r.idx), rname(s.idx)),
+			Cmds: []Cmd{{Op: CRefCopy, R: r.idx, R0: s.idx}}}
+
 	// ---- reference values copied around: plain copy, non-resource holders, re-reading
 	case "refCopy":
 		// copying an invalidated reference is only done through a holder (see "holderRead"):
@@ -1011,7 +1096,8 @@ var failStmts = map[Rerr][]string{
 	EForceCast:   {"castRes", "refCast"},
 	EDeref:       {"use", "setTag", "refStep", "arrAppend"},
 	EInvalidRef: {"use", "use", "use", "use", "refStep", "refCast", "refUnwrap", "setTag", "arrAppend", "arrRemove",
-		"swapOpt", "dictInsert", "forceOpt", "takeOpt", "dictRemove", "holderMake", "holderRead", "holderRead"},
+		"swapOpt", "dictInsert", "forceOpt", "takeOpt", "dictRemove", "holderMake", "holderRead", "holderRead",
+		"useAtt", "useAtt", "useAtt", "attSetTag", "attBaseRef", "refAtt"},
 }
 
 type choice struct {
@@ -1031,6 +1117,7 @@ func (g *Gen) choices() []choice {
 		{"save", w.Storage * 2}, {"load", w.Storage},
 		{"refVar", w.Ref * 2}, {"refStep", w.Ref * 3}, {"refUnwrap", w.Ref * 2}, {"refCast", w.Ref * 3}, {"borrow", w.Ref},
 		{"use", w.Use * 5}, {"showVar", w.Use},
+		{"refAtt", w.Ref * 3}, {"useAtt", w.Use * 3}, {"attSetTag", w.Mut * 2}, {"attBaseRef", w.Ref},
 		{"refCopy", w.Ref}, {"holderMake", w.Ref * 4}, {"holderCopy", w.Ref}, {"holderRead", w.Ref * 8},
 		{"setTag", w.Mut * 3},
 		{"swapIdxArr", w.SwapIdx}, {"swapIdxDict", w.SwapIdx},
